@@ -23,6 +23,7 @@ from armi import getPluginManagerOrFail, runLog
 from armi.materials.material import Material
 from armi.reactor import blocks, parameters
 from armi.reactor.blueprints import componentBlueprint
+from armi.reactor.components import DerivedShape
 from armi.reactor.components.component import Component
 from armi.reactor.composites import Composite
 from armi.reactor.converters import blockConverters
@@ -200,6 +201,12 @@ class BlockBlueprint(yamlize.KeyedList):
         # Resolve linked dims after all components in the block are created
         for c in components.values():
             c.resolveLinkedDims(components)
+
+        # Now that all dimensions are known, fail on inputs that overlap: the cold area of a
+        # component may only be negative for Void (gaps). The check itself lives in getArea.
+        for c in components.values():
+            if isinstance(c, Component) and not isinstance(c, DerivedShape):
+                c.getArea(cold=True)
 
         boundingComp = sorted(components.values())[-1]
         # give a temporary name (will be updated by b.makeName as real blocks populate systems)
